@@ -108,11 +108,29 @@ def scenario(method, how, schedule):
     st['phase'] = 'running'
     rec({'e': 'start'})
     try:
+        racer = None
         for k in schedule[0]:
+            if k == 'race':
+                # two observers of the same process object at the moment it ends: a thread blocked in
+                # join(), and this thread polling exitcode -- whichever reaps the child, both must
+                # end up with its true status
+                racer = threading.Thread(target=p.join, daemon=True)      # no timeout: blocked in waitpid itself
+                racer.start()
+                time.sleep(0.1)
+                continue
             observe(k)
             if st.get('stuck_join'):
                 return obs
         w.send_bytes(b'go')
+        if racer is not None:
+            t0 = time.monotonic()
+            while time.monotonic() - t0 < 10:
+                try:
+                    if p.exitcode is not None:
+                        break
+                except Exception:      # noqa  (what the parent sees is recorded below)
+                    break
+            racer.join(16)
         if not _wait_really_dead(p, method, sentinel=sentinel):
             rec({'e': 'harness_timeout'})
             return obs
@@ -185,4 +203,5 @@ SCHEDULES = [
     (['is_alive', 'join_timed'], ['join', 'exitcode', 'active', 'is_alive', 'start_again']),
     ([], ['is_alive', 'exitcode', 'active', 'join_timed']),
     (['active'], ['active', 'join', 'exitcode']),
+    (['is_alive', 'race'], ['exitcode', 'is_alive', 'join', 'active', 'exitcode']),
 ]
